@@ -4,7 +4,7 @@ from __future__ import annotations
 import ast
 from typing import List, Set
 
-from ..collect import callee_is, run_paths
+from ..collect import callee_is, inline_except, run_paths
 from ..common import calls_in, construct, where
 from ..flow import show
 from ..fold import Folder, NotConst
@@ -176,7 +176,7 @@ def run(p: Program, rep: Report, tier: str) -> None:
     if s is None:
         raise AnalysisError("Cookie.__str__ vanished")
     rep.analysed(s.fq)
-    paths, col, it = run_paths(p, s, cookie)
+    paths, col, it = run_paths(p, s, cookie, inline=inline_except("_quote"))
     rep.cfg_paths += len(paths)
     first_ok = 0
     for pa in paths:
